@@ -1,0 +1,14 @@
+//go:build verif
+
+package fw
+
+// Contracts for the gcv verifier (/verif); compiled only with build tag `verif`.
+
+//@ func HashNameToFwThread
+//@   requires len(Threads) >= 1
+//@   ensures 0 <= result && result < len(Threads)
+
+//@ func HashNameToAllPrefixFwThreads
+//@   requires len(Threads) >= 1
+//@   ensures len(result) == len(Threads)
+//@   loop 1 invariant 1 <= i && len(threads) == len(Threads) && len(Threads) >= 1 && len(prefixHash) == len(name)+1
